@@ -1,6 +1,6 @@
 (* C03 property theorems. This file contains only statements closed by
    [exact lemma] and Print Assumptions. *)
-From V Require Import Common.Base C03.Num C03.SpecOps C03.NumProofs C03.Tree C03.Fold C03.MiniJS C03.Worlds C03.TreeProofs C03.TreeProofs2 C03.TreeProofs3 C03.TreeProofs4 C03.TreeProofs5 C03.TreeProofs6 C03.Refuted.
+From V Require Import Common.Base C03.Num C03.SpecOps C03.NumProofs C03.Tree C03.Fold C03.PowProofs C03.MiniJS C03.Worlds C03.TreeProofs C03.TreeProofs2 C03.TreeProofs3 C03.TreeProofs4 C03.TreeProofs5 C03.TreeProofs6 C03.Refuted.
 
 (* js_ast.ToInt32 computes ECMA-262 ToInt32 for every float64 (finite dyadic of
    any magnitude, NaN, infinities), whatever Go's implementation-defined
@@ -144,24 +144,16 @@ Theorem check_equality_sound :
 Proof. exact check_equality_sound_all. Qed.
 Print Assumptions check_equality_sound.
 
-(* REFUTED (DESIGN 7-B): the special cases of math.Pow used by BinOpPow folding
-   are not those of Number::exponentiate: witness 1 ** NaN *)
-Theorem fold_pow_special_cases_refuted :
-  exists x y, wf_num x /\ wf_num y /\ ~ pow_special_cases_agree x y.
-Proof. exact fold_pow_special_cases_refuted_w. Qed.
-Print Assumptions fold_pow_special_cases_refuted.
-
-(* the part that holds: outside |base| = 1 with a NaN/infinite exponent, all
-   pairs of the 27-value boundary grid agree (finite domain: 27 x 27 pairs) *)
-Theorem fold_pow_special_cases_partial :
-  forallb (fun x => forallb (fun y =>
-    bad_family x y ||
-    match go_pow_special x y with
-    | Some r => match spec_exponentiate_special x y with Some r' => num_same r r' | None => true end
-    | None => true
-    end) pow_grid) pow_grid = true.
-Proof. exact fold_pow_special_cases_partial_grid. Qed.
-Print Assumptions fold_pow_special_cases_partial.
+(* FoldBinaryOperator's ** (after fix 9e1822e): whenever the folded result is
+   decided by a special case (of the fix or of math.Pow), Number::exponentiate
+   decides the same value, or leaves it implementation-approximated; for ALL
+   doubles.  (Was refuted with witness 1 ** NaN before the fix, DESIGN 7-B.) *)
+Theorem fold_pow_special_cases :
+  forall x y, wf_double x -> wf_double y ->
+    forall r, fold_pow x y = Some r ->
+    match spec_exponentiate_special x y with Some r' => num_same r r' = true | None => True end.
+Proof. exact fold_pow_special_cases_all. Qed.
+Print Assumptions fold_pow_special_cases.
 
 (* REFUTED (DESIGN 7-A): SimplifyUnusedExpr does not preserve the effects of an
    unused object literal with a computed key: ({[k]: 1}) with k a symbol
